@@ -537,6 +537,36 @@ func genLocCase(r *rand.Rand, prof string) Case {
 			map[string]interface{}{"loc": "L0", "op": "getfact", "id": "d1"},
 			map[string]interface{}{"loc": "L0", "op": "getfact", "id": "p0"})
 	}
+	if prof == "cascade" && r.Intn(8) == 0 {
+		// scripted opening: a chain a0 <- b0 <- c0 (<- a rule) whose MIDDLE link expires without anybody
+		// reading it, then the removal of a0: the cascade's search meets the expired link, skips and notes
+		// it, and the purge that follows the removal must remove it AND continue the cascade through it;
+		// then the raw storage, a reload (sometimes), reads and an event
+		mid := lg.fact()
+		mid["deleteWith"] = []interface{}{"a0"}
+		mid["ttl"] = 1.0
+		last := lg.fact()
+		last["deleteWith"] = []interface{}{"b0"}
+		rule := rulePat(map[string]interface{}{"k": "?v"})
+		rule["deleteWith"] = []interface{}{pick(r, "b0", "c0").(string)}
+		ops = append(ops,
+			map[string]interface{}{"loc": "L0", "op": "addfact", "id": "x0", "fact": lg.fact()},
+			map[string]interface{}{"loc": "L0", "op": "addfact", "id": "a0", "fact": lg.fact()},
+			map[string]interface{}{"loc": "L0", "op": "addfact", "id": "b0", "fact": mid},
+			map[string]interface{}{"loc": "L0", "op": "addfact", "id": "c0", "fact": last},
+			map[string]interface{}{"loc": "L0", "op": "addrule", "id": "r0", "rule": rule},
+			map[string]interface{}{"loc": "L0", "op": "remfact", "id": "a0", "sleep": 2},
+			map[string]interface{}{"loc": "L0", "op": "storeids"})
+		if r.Intn(2) == 0 {
+			ops = append(ops, map[string]interface{}{"loc": "L0", "op": "reload"},
+				map[string]interface{}{"loc": "L0", "op": "storeids"})
+		}
+		ops = append(ops,
+			map[string]interface{}{"loc": "L0", "op": "getfact", "id": "c0"},
+			map[string]interface{}{"loc": "L0", "op": "getrule", "id": "r0"},
+			map[string]interface{}{"loc": "L0", "op": "event", "event": map[string]interface{}{"k": "x"}},
+			map[string]interface{}{"loc": "L0", "op": "storeids"})
+	}
 	if nlocs > 1 && prof != "forest" {
 		ops = append(ops, map[string]interface{}{"loc": "L0", "op": "setparents", "parents": []interface{}{"L1"}})
 	}
